@@ -1,14 +1,14 @@
 SPECIFICATION Spec
 CONSTANTS
   Versions <- VersionsAll
-  Family = "ops"
-  ShapeIds <- ShapesC03
-  VariantIds <- Variants256
+  Family = "sid"
+  ShapeIds <- ShapesSid
+  VariantIds <- Variants2
   MaxOps = 2
-  Alphabet <- AlphabetQuick
+  Alphabet <- AlphabetSid
   PreOps <- PreNone
   SibFields <- NoFields
-  SidPairs <- NoSid
+  SidPairs <- SidAll
   TamperMax = 0
 INVARIANTS TypeOK PIdStable PRoundTrip PRedactKeeps PV12 PBuildOrRefuse Emit
 CHECK_DEADLOCK FALSE
